@@ -18,7 +18,7 @@ CUT_PRE = dict(
 )
 
 
-@contract("modifiers.py", "ReverseComplementer.__call__", props=["C16", "C03", "C20"])
+@contract("modifiers.py", "ReverseComplementer.__call__", props=["C16", "C03", "C20", "C17"])
 def reverse_complementer_call(c):
     c.runtime = {"module": "cmods", "name": "revcomp", "replay_count": 3000}
     c.types(self=RCT, read=Record, info=InfoT)
@@ -77,7 +77,7 @@ def _cut_pre(which, r):
     }
 
 
-@contract("modifiers.py", "PairedReverseComplementer.__call__", props=["C16", "C03", "C05", "C20"])
+@contract("modifiers.py", "PairedReverseComplementer.__call__", props=["C16", "C03", "C05", "C20", "C17"])
 def paired_reverse_complementer_call(c):
     c.types(self=PRCT, r1=Record, r2=Record, info1=InfoT, info2=InfoT)
     c.returns(TupT(Record, Record))
